@@ -44,7 +44,7 @@ def dump(b):
         elif k=='goto': print('     goto bb%d'%t['t'])
         else: print('     ',k)
 if __name__=='__main__':
-    d=os.environ.get('FACTS') or sorted(glob.glob('/verif/.work/facts/*/'),key=os.path.getmtime)[-1].rstrip('/')
+    d=os.environ.get("FACTS") or [p.rstrip("/") for p in sorted(glob.glob("/verif/.work/facts/*/"),key=os.path.getmtime) if os.path.exists(p+"ok")][-1]
     F=Facts(d)
     exact=[a for a in sys.argv[1:] if a.startswith('=')]
     for n in F.names():
